@@ -17,6 +17,17 @@ theorem maskModes_mem (n mask : Nat) : ∀ m ∈ maskModes n mask, m = BasisMode
   · exact Or.inr rfl
   · exact Or.inl rfl
 
+theorem derivModes_mem (ks : List Nat) (h : ∀ k ∈ ks, k ≤ 1) :
+    ∀ m ∈ derivModes ks, m = BasisMode.value ∨ m = BasisMode.deriv1 := by
+  intro m hm
+  simp only [derivModes, List.mem_map] at hm
+  obtain ⟨k, hk, rfl⟩ := hm
+  have := h k hk
+  by_cases h0 : k = 0
+  · simp [h0]
+  · have h1 : k = 1 := by omega
+    simp [h1]
+
 /-- with no derivative selected the majorant is the plain evaluation (any arithmetic) -/
 theorem rowsAbs_value {α : Type} [A : Arith α] : ∀ (ds : List (Dim α)) (xs : List α) (cs : List Nat) (ms : List BasisMode),
     (∀ m ∈ ms, m = BasisMode.value) → rowsAbs ds xs cs ms = rows ds xs cs ms := by
@@ -79,26 +90,35 @@ theorem rows3_rel (n : Nat) : ∀ (ds : List (Dim F)) (xs : List F) (cs : List N
         rw [hr] at i2
         exact Nat.mul_le_mul_left _ i2
 
-/-- **Forward error of bitmask-derivative evaluation**, as an `Acc` statement: both the error bound against
-the majorant and `|exact| ≤ majorant`. -/
+/-- **Forward error of evaluation with any per-dimension choice of value / single-derivative rows**, as an `Acc`
+statement: both the error bound against the majorant and `|exact| ≤ majorant`. -/
+theorem evalModes_rounding (T : Table F) (xs : List F) (cs : List Nat) (n : Nat) (ms : List BasisMode)
+    (hint : AllInterior T.dims xs cs) (hn : ∀ d ∈ T.dims, d.order ≤ n) (hl : ms.length = T.dims.length)
+    (hms : ∀ m ∈ ms, m = BasisMode.value ∨ m = BasisMode.deriv1) :
+    Acc ε (3 + T.dims.length * (7 * n + 3) + 2 * blockSize T.dims)
+      (@evalModesAbs F (Arith.ofField F) ⟨T.dims, fun i => |T.coef i|⟩ xs cs ms)
+      (@evalModes F (Arith.ofField F) T xs cs ms)
+      (@evalModes F (Arith.rounded fl st) T xs cs ms) := by
+  unfold evalModes evalModesAbs
+  simp only [of_rnd, of_one, of_zero, rd_rnd, rd_one, rd_zero]
+  obtain ⟨hrel, hnt, hlen⟩ := rows3_rel hε hfl hst n T.dims xs cs ms hint hn hl hms
+  have hst0 : st 0 = 0 := (hst 0).zero_left hε
+  rw [hst0]
+  have hone : Acc ε 1 (1 : F) 1 (st 1) := Acc.of_relerr_nonneg hε (hst 1) zero_le_one
+  have kt_ok : 1 + (@rows F (Arith.ofField F) T.dims xs cs ms).length * (1 + 7 * n + 2) + 2
+      ≤ 3 + T.dims.length * (7 * n + 3) := by rw [hlen]; ring_nf; omega
+  have h := walk_err3 hε hfl hst T.coef (3 + T.dims.length * (7 * n + 3)) (1 + 7 * n) _ _ _ hrel 1 1 1 (st 1) hone
+    kt_ok (startPos T.dims cs) 0 0 0 0 (by simp [Acc])
+  exact h.mono hε (by omega)
+
+/-- bitmask form -/
 theorem ndsplineeval_mask_rounding (T : Table F) (xs : List F) (cs : List Nat) (n mask : Nat)
     (hint : AllInterior T.dims xs cs) (hn : ∀ d ∈ T.dims, d.order ≤ n) :
     Acc ε (3 + T.dims.length * (7 * n + 3) + 2 * blockSize T.dims)
       (@ndsplineevalAbs F (Arith.ofField F) ⟨T.dims, fun i => |T.coef i|⟩ xs cs mask)
       (@ndsplineeval F (Arith.ofField F) T xs cs mask)
-      (@ndsplineeval F (Arith.rounded fl st) T xs cs mask) := by
-  unfold ndsplineeval ndsplineevalAbs evalModes evalModesAbs
-  simp only [of_rnd, of_one, of_zero, rd_rnd, rd_one, rd_zero]
-  obtain ⟨hrel, hnt, hlen⟩ := rows3_rel hε hfl hst n T.dims xs cs (maskModes T.dims.length mask) hint hn
-    (maskModes_length _ _) (maskModes_mem _ _)
-  have hst0 : st 0 = 0 := (hst 0).zero_left hε
-  rw [hst0]
-  have hone : Acc ε 1 (1 : F) 1 (st 1) := Acc.of_relerr_nonneg hε (hst 1) zero_le_one
-  have kt_ok : 1 + (@rows F (Arith.ofField F) T.dims xs cs (maskModes T.dims.length mask)).length * (1 + 7 * n + 2) + 2
-      ≤ 3 + T.dims.length * (7 * n + 3) := by rw [hlen]; ring_nf; omega
-  have h := walk_err3 hε hfl hst T.coef (3 + T.dims.length * (7 * n + 3)) (1 + 7 * n) _ _ _ hrel 1 1 1 (st 1) hone
-    kt_ok (startPos T.dims cs) 0 0 0 0 (by simp [Acc])
-  exact h.mono hε (by omega)
+      (@ndsplineeval F (Arith.rounded fl st) T xs cs mask) :=
+  evalModes_rounding hε hfl hst T xs cs n (maskModes T.dims.length mask) hint hn (maskModes_length _ _) (maskModes_mem _ _)
 
 end
 end PsV
